@@ -57,6 +57,13 @@ CLAIMED = {
             "and the twelve Yukawa getters.",
             "zeta table of arXiv:1607.06292 Table 1; tolerance widened for m_H+ < 80 GeV (ill-conditioned loop functions)",
             "4/C09"),
+    "C05": ("property-based testing (Hypothesis): round trip on-shell point -> pole spectrum -> perturbed DR-bar guesses -> "
+            "conversion; residual oracle with an independent fixed-point reconstruction of the smuon sector",
+            "Generated on-shell points, perturbations up to 5 % and precision goals over six decades; chargino, bino-like "
+            "neutralino, sneutrino and right-smuon residuals are compared with the requested precision whenever no warning "
+            "is raised, and the original parameters and a_mu must be recovered on the well-conditioned subset.",
+            "one open known finding (F-9: final Yukawa re-resummation); smuon matrix rebuilt in Python/mpmath",
+            "4/C05"),
     "C06": ("property-based testing (Hypothesis): metamorphic relation between a parameter point and its joint sign flip",
             "Generated on-shell points with independent signs and three independent generations; every public and helper "
             "a_mu function, the resummation factors, uncertainties and all masses are compared between the two runs.",
